@@ -327,6 +327,10 @@ _WORKER_RUN = None
 
 def _call(args):
     k, item = args
+    if multiprocessing.current_process().name != "MainProcess" and not getattr(sys.stdout, "_verif_null", False):
+        # miasmX prints diagnostics ("ERROR: b 15") on stdout; workers report through return values only
+        sys.stdout = open(os.devnull, "w")
+        sys.stdout._verif_null = True
     st = Stats()
     _WORKER_FN(_WORKER_RUN, st, k, item)
     return st
@@ -345,6 +349,16 @@ def pmap(run, fn, items, procs=NCPU):
     with ctx.Pool(min(procs, len(items))) as pool:
         for st in pool.imap(_call, list(enumerate(items))):
             run.absorb(st)
+
+
+class quiet(object):
+    """silence miasmX's own prints in the main process"""
+    def __enter__(self):
+        self.old = sys.stdout
+        sys.stdout = open(os.devnull, "w")
+    def __exit__(self, *a):
+        sys.stdout.close()
+        sys.stdout = self.old
 
 
 def chunks(seq, n):
